@@ -37,6 +37,7 @@ const (
 	annTmplPint = 1 << 7
 	annTmplProm = 1 << 8
 	annDurZero  = 1 << 9
+	annNullDec  = 1 << 10 // per node: the scalar resolves to null
 )
 
 var promTmplDefs = []string{
@@ -84,6 +85,9 @@ func c01NodeBits(n *yaml.Node) int {
 			return n.Decode(&i) == nil
 		}() {
 			b |= annIntDec
+		}
+		if scalarIsNull(n) {
+			b |= annNullDec
 		}
 	}
 	return b
@@ -235,7 +239,13 @@ func runC01(args []string) int {
 		if i >= len(c01BoundarySizes) {
 			size = pick(r, c01BoundarySizes) + r.Intn(3) - 1
 		}
-		content, desc := c01ReaderStress(r, gv, size, i < len(c01BoundarySizes) || r.Intn(2) == 0)
+		// every boundary size once with a single long physical line (the four one-line fillers rotate with the seed) and
+		// a defective tail; the extra ones draw size, filler (incl. many short lines) and tail at random
+		kind := []int{0, 1, 3, 4}[(i+int(seed%4)+4)%4]
+		if i >= len(c01BoundarySizes) {
+			kind = r.Intn(5)
+		}
+		content, desc := c01ReaderStress(r, gv, size, kind, i < len(c01BoundarySizes) || r.Intn(2) == 0)
 		items = append(items, item{content, "reader-stress"})
 		rep.hist("reader-stress:" + desc[strings.Index(desc, ":")+1:])
 	}
@@ -361,8 +371,7 @@ func runC01(args []string) int {
 			rep.hist("prom-side-not-compared:binary-tag")
 		}
 		if hasNullTagText(docs) {
-			obsQ = "None"
-			rep.hist("prom-side-not-compared:null-tag-with-text")
+			rep.hist("has:null-tag-with-text")
 		}
 		if hasAliasOrMerge(docs) {
 			rep.hist("has:alias-or-merge")
